@@ -20,7 +20,30 @@
    libusb_submit_transfer accepted it.  `push_first = true` pushes first and submits through
    pending.back_mut() (kept to show what the theorems exclude).
    `pool_drop` is the code's Drop (`while !is_empty() { poll(1s).ok(); }`); `pool_drop_rounds` is
-   the variant `for _ in 0..pending() { poll(1s).ok(); }` (kept to show what the theorems exclude). *)
+   the variant `for _ in 0..pending() { poll(1s).ok(); }` (kept to show what the theorems exclude).
+
+   The events lock (fifth round).  poll_completed follows libusb's protocol for several threads: per
+   round of its loop it tries to take the events lock; when it gets it, it handles events itself;
+   when another thread holds it, it takes the event waiters lock, asks libusb_event_handler_active
+   and only if a handler is still active waits for it (libusb_wait_for_event).  What the OTHER threads
+   of the process do with the events lock is scripted per round (`lk_plan`, one entry per round, past
+   the end LkOwn), exactly as rust/h_async/src/fake_usb.rs:
+   - LkOwn: libusb_try_lock_events succeeds; the round is one libusb_handle_events_locked call;
+   - LkActive n: it fails, libusb_event_handler_active answers 1, libusb_wait_for_event is called with
+     the remaining time: if n microseconds is less than that, the other thread handles events after
+     n us - the due / cancelled transfers of our pool complete exactly as in a successful
+     event-handling call of our own, their callbacks run on that thread - and the waiters are woken;
+     otherwise the wait times out, nothing of ours was handled;
+   - LkGone: it fails because the lock was taken at that instant, but the holder has left before the
+     waiters lock is held: libusb_event_handler_active answers 0, the code does not wait and goes
+     round again at once (no time passes).  A libusb_wait_for_event call in that situation sleeps for
+     the whole timeval it was given: nobody is left to wake the waiters, nobody handles events.
+   Time is the virtual clock of the harness (microseconds): it moves only when an event-handling call
+   finds nothing to complete (by the timeval + 1 us), when a wait returns (by n) or times out (by the
+   timeval + 1 us).  `poll_wait` carries the time left until the deadline of poll_completed.
+   `recheck = true` is the code; `recheck = false` is the variant that calls libusb_wait_for_event in
+   the contended branch without asking libusb_event_handler_active (kept to show what the theorems
+   exclude). *)
 From Cam Require Export Outcome Bytes.
 
 Inductive plan := PRefuse (code : Z) | PAccept (status len delay : Z) (clat : nat).
@@ -31,6 +54,26 @@ Inductive lstate :=
 | LDone (status len : Z).
 
 Record slot := { sl_no : Z; sl_buf : Z; sl_st : lstate }.
+
+(* what the other threads do with libusb's events lock during one round of poll_completed *)
+Inductive lockent := LkOwn | LkGone | LkActive (n : Z).
+
+(* the libusb calls of the lock protocol, as poll_completed makes them (ghost call log) *)
+Inductive lcall :=
+| CTryLock (got : bool)       (* libusb_try_lock_events; got = it returned 0 *)
+| CHandle (code : Z)          (* libusb_handle_events_locked and its result *)
+| CActive (ans : bool)        (* libusb_event_handler_active, under the waiters lock *)
+| CWait (active : bool).      (* libusb_wait_for_event; active = an event handler was active at that moment *)
+
+Record lkstate := {
+  lk_plan : list lockent;       (* the coming rounds *)
+  lk_clock : Z;                 (* virtual microseconds gone by *)
+  lk_rounds : Z;                (* libusb_try_lock_events calls *)
+  lk_fail : Z;                  (* ... that found the lock taken *)
+  lk_waits : Z;                 (* libusb_wait_for_event calls *)
+  lk_idle : Z;                  (* ... made while no event handler was active *)
+  lk_log : list lcall           (* ghost: the calls, newest first *)
+}.
 
 Record pstate := {
   p_plan : list plan;
@@ -44,12 +87,16 @@ Record pstate := {
   p_notfound : Z;               (* libusb_cancel_transfer -> NOT_FOUND *)
   p_evcalls : Z;                (* libusb_handle_events_locked calls *)
   p_freed : Z;                  (* transfers freed (libusb_free_transfer) while libusb had them in flight *)
-  p_reaped : list Z             (* ghost: numbers of the transfers poll has returned, in order *)
+  p_reaped : list Z;            (* ghost: numbers of the transfers poll has returned, in order *)
+  p_lk : lkstate                (* the events lock: plan of the other threads, clock, call counters and log *)
 }.
 
-Definition pinit (pl : list plan) (evs : list Z) : pstate :=
+Definition lkinit (lks : list lockent) : lkstate :=
+  {| lk_plan := lks; lk_clock := 0; lk_rounds := 0; lk_fail := 0; lk_waits := 0; lk_idle := 0; lk_log := [] |}.
+
+Definition pinit (pl : list plan) (evs : list Z) (lks : list lockent) : pstate :=
   {| p_plan := pl; p_evs := evs; p_epoch := 0; p_pool := Some []; p_calls := 0; p_accepted := 0; p_refused := 0;
-     p_completed := 0; p_notfound := 0; p_evcalls := 0; p_freed := 0; p_reaped := [] |}.
+     p_completed := 0; p_notfound := 0; p_evcalls := 0; p_freed := 0; p_reaped := []; p_lk := lkinit lks |}.
 
 (* LibUsbError::from_libusb_error, classes numbered as the harness prints them; None: unreachable!() *)
 Definition err_class (code : Z) : option Z :=
@@ -111,39 +158,81 @@ Fixpoint cancel_all (q : list slot) : list slot * Z :=
 Definition set_pool (s : pstate) (q : option (list slot)) : pstate :=
   {| p_plan := p_plan s; p_evs := p_evs s; p_epoch := p_epoch s; p_pool := q; p_calls := p_calls s;
      p_accepted := p_accepted s; p_refused := p_refused s; p_completed := p_completed s; p_notfound := p_notfound s;
-     p_evcalls := p_evcalls s; p_freed := p_freed s; p_reaped := p_reaped s |}.
+     p_evcalls := p_evcalls s; p_freed := p_freed s; p_reaped := p_reaped s; p_lk := p_lk s |}.
+
+(* ---- the events lock: what one round of poll_completed does to it -------------------------------- *)
+
+(* the entry of the plan for the round that begins *)
+Definition lk_round (k : lkstate) : lockent := match lk_plan k with [] => LkOwn | e :: _ => e end.
+
+Definition lk_logc (k : lkstate) (c : lcall) : lkstate :=
+  {| lk_plan := lk_plan k; lk_clock := lk_clock k; lk_rounds := lk_rounds k; lk_fail := lk_fail k;
+     lk_waits := lk_waits k; lk_idle := lk_idle k; lk_log := c :: lk_log k |}.
+
+(* the virtual clock moves by d microseconds *)
+Definition lk_tick (k : lkstate) (d : Z) : lkstate :=
+  {| lk_plan := lk_plan k; lk_clock := lk_clock k + d; lk_rounds := lk_rounds k; lk_fail := lk_fail k;
+     lk_waits := lk_waits k; lk_idle := lk_idle k; lk_log := lk_log k |}.
+
+(* libusb_try_lock_events returned 0: this thread handles the events of the round *)
+Definition lk_own (k : lkstate) : lkstate :=
+  {| lk_plan := tl (lk_plan k); lk_clock := lk_clock k; lk_rounds := lk_rounds k + 1; lk_fail := lk_fail k;
+     lk_waits := lk_waits k; lk_idle := lk_idle k; lk_log := CTryLock true :: lk_log k |}.
+
+(* libusb_try_lock_events found the lock taken; then, under the waiters lock: `ask` = libusb_event_handler_active
+   is called (`active` = whether a handler is active at that moment, which is what it answers); `wait` =
+   libusb_wait_for_event is called *)
+Definition lk_contended (k : lkstate) (ask active wait : bool) : lkstate :=
+  let l1 := CTryLock false :: lk_log k in
+  let l2 := if ask then CActive active :: l1 else l1 in
+  let l3 := if wait then CWait active :: l2 else l2 in
+  {| lk_plan := tl (lk_plan k); lk_clock := lk_clock k; lk_rounds := lk_rounds k + 1; lk_fail := lk_fail k + 1;
+     lk_waits := lk_waits k + (if wait then 1 else 0);
+     lk_idle := lk_idle k + (if wait && negb active then 1 else 0); lk_log := l3 |}.
+
+Definition lk_push (k : lkstate) (e : lockent) : lkstate :=
+  {| lk_plan := lk_plan k ++ [e]; lk_clock := lk_clock k; lk_rounds := lk_rounds k; lk_fail := lk_fail k;
+     lk_waits := lk_waits k; lk_idle := lk_idle k; lk_log := lk_log k |}.
+
+Definition set_lk (s : pstate) (k : lkstate) : pstate :=
+  {| p_plan := p_plan s; p_evs := p_evs s; p_epoch := p_epoch s; p_pool := p_pool s; p_calls := p_calls s;
+     p_accepted := p_accepted s; p_refused := p_refused s; p_completed := p_completed s; p_notfound := p_notfound s;
+     p_evcalls := p_evcalls s; p_freed := p_freed s; p_reaped := p_reaped s; p_lk := k |}.
+
+Definition tick (s : pstate) (d : Z) : pstate := set_lk s (lk_tick (p_lk s) d).
 
 (* one libusb_handle_events_locked call begins: its result is taken from the event plan *)
 Definition ev_call (s : pstate) : pstate :=
   {| p_plan := p_plan s; p_evs := tl (p_evs s); p_epoch := p_epoch s; p_pool := p_pool s; p_calls := p_calls s;
      p_accepted := p_accepted s; p_refused := p_refused s; p_completed := p_completed s; p_notfound := p_notfound s;
-     p_evcalls := p_evcalls s + 1; p_freed := p_freed s; p_reaped := p_reaped s |}.
+     p_evcalls := p_evcalls s + 1; p_freed := p_freed s; p_reaped := p_reaped s;
+     p_lk := lk_logc (p_lk s) (CHandle (hd 0 (p_evs s))) |}.
 
 Definition add_completed (s : pstate) (n : Z) : pstate :=
   {| p_plan := p_plan s; p_evs := p_evs s; p_epoch := p_epoch s; p_pool := p_pool s; p_calls := p_calls s;
      p_accepted := p_accepted s; p_refused := p_refused s; p_completed := p_completed s + n; p_notfound := p_notfound s;
-     p_evcalls := p_evcalls s; p_freed := p_freed s; p_reaped := p_reaped s |}.
+     p_evcalls := p_evcalls s; p_freed := p_freed s; p_reaped := p_reaped s; p_lk := p_lk s |}.
 
 Definition add_notfound (s : pstate) (n : Z) : pstate :=
   {| p_plan := p_plan s; p_evs := p_evs s; p_epoch := p_epoch s; p_pool := p_pool s; p_calls := p_calls s;
      p_accepted := p_accepted s; p_refused := p_refused s; p_completed := p_completed s; p_notfound := p_notfound s + n;
-     p_evcalls := p_evcalls s; p_freed := p_freed s; p_reaped := p_reaped s |}.
+     p_evcalls := p_evcalls s; p_freed := p_freed s; p_reaped := p_reaped s; p_lk := p_lk s |}.
 
 Definition next_epoch (s : pstate) : pstate :=
   {| p_plan := p_plan s; p_evs := p_evs s; p_epoch := p_epoch s + 1; p_pool := p_pool s; p_calls := p_calls s;
      p_accepted := p_accepted s; p_refused := p_refused s; p_completed := p_completed s; p_notfound := p_notfound s;
-     p_evcalls := p_evcalls s; p_freed := p_freed s; p_reaped := p_reaped s |}.
+     p_evcalls := p_evcalls s; p_freed := p_freed s; p_reaped := p_reaped s; p_lk := p_lk s |}.
 
 Definition push_ev (s : pstate) (code : Z) : pstate :=
   {| p_plan := p_plan s; p_evs := p_evs s ++ [code]; p_epoch := p_epoch s; p_pool := p_pool s; p_calls := p_calls s;
      p_accepted := p_accepted s; p_refused := p_refused s; p_completed := p_completed s; p_notfound := p_notfound s;
-     p_evcalls := p_evcalls s; p_freed := p_freed s; p_reaped := p_reaped s |}.
+     p_evcalls := p_evcalls s; p_freed := p_freed s; p_reaped := p_reaped s; p_lk := p_lk s |}.
 
 (* pending.pop_front() of the completed front transfer `sl` *)
 Definition pop_front (s : pstate) (sl : slot) (r : list slot) : pstate :=
   {| p_plan := p_plan s; p_evs := p_evs s; p_epoch := p_epoch s; p_pool := Some r; p_calls := p_calls s;
      p_accepted := p_accepted s; p_refused := p_refused s; p_completed := p_completed s; p_notfound := p_notfound s;
-     p_evcalls := p_evcalls s; p_freed := p_freed s; p_reaped := p_reaped s ++ [sl_no sl] |}.
+     p_evcalls := p_evcalls s; p_freed := p_freed s; p_reaped := p_reaped s ++ [sl_no sl]; p_lk := p_lk s |}.
 
 (* transfers libusb still has in flight *)
 Definition is_flight (sl : slot) : bool := match sl_st sl with LFlight _ _ _ _ _ => true | _ => false end.
@@ -154,7 +243,7 @@ Definition in_flight (q : list slot) : Z := zlen (filter is_flight q).
 Definition free_pool (s : pstate) (q : list slot) : pstate :=
   {| p_plan := p_plan s; p_evs := p_evs s; p_epoch := p_epoch s; p_pool := None; p_calls := p_calls s;
      p_accepted := p_accepted s; p_refused := p_refused s; p_completed := p_completed s; p_notfound := p_notfound s;
-     p_evcalls := p_evcalls s; p_freed := p_freed s + in_flight q; p_reaped := p_reaped s |}.
+     p_evcalls := p_evcalls s; p_freed := p_freed s + in_flight q; p_reaped := p_reaped s; p_lk := p_lk s |}.
 
 (* ---- AsyncPool::submit ---------------------------------------------------------------------- *)
 Definition submit (push_first : bool) (s : pstate) (q : list slot) (len : Z) : pstate * list Z :=
@@ -166,14 +255,14 @@ Definition submit (push_first : bool) (s : pstate) (q : list slot) (len : Z) : p
     let q' := if push_first then q ++ [{| sl_no := -1; sl_buf := len; sl_st := LUnknown |}] else q in
     ({| p_plan := rest; p_evs := p_evs s; p_epoch := p_epoch s; p_pool := Some q'; p_calls := p_calls s + 1;
         p_accepted := p_accepted s; p_refused := p_refused s + 1; p_completed := p_completed s;
-        p_notfound := p_notfound s; p_evcalls := p_evcalls s; p_freed := p_freed s; p_reaped := p_reaped s |},
+        p_notfound := p_notfound s; p_evcalls := p_evcalls s; p_freed := p_freed s; p_reaped := p_reaped s; p_lk := p_lk s |},
      match err_class code with Some c => [1; c] | None => [2] end)
   | PAccept status ln delay clat =>
     let sl := {| sl_no := p_accepted s; sl_buf := len;
                  sl_st := LFlight status (Z.min ln len) (p_epoch s + delay) clat false |} in
     ({| p_plan := rest; p_evs := p_evs s; p_epoch := p_epoch s; p_pool := Some (q ++ [sl]); p_calls := p_calls s + 1;
         p_accepted := p_accepted s + 1; p_refused := p_refused s; p_completed := p_completed s;
-        p_notfound := p_notfound s; p_evcalls := p_evcalls s; p_freed := p_freed s; p_reaped := p_reaped s |}, [0])
+        p_notfound := p_notfound s; p_evcalls := p_evcalls s; p_freed := p_freed s; p_reaped := p_reaped s; p_lk := p_lk s |}, [0])
   end.
 
 (* ---- AsyncPool::poll ------------------------------------------------------------------------ *)
@@ -193,38 +282,76 @@ Definition reap (sl : slot) : option (list Z) :=
 Definition front_done (q : list slot) : bool :=
   match q with sl :: _ => match sl_st sl with LDone _ _ => true | _ => false end | [] => false end.
 
-(* poll_completed with a positive time-out, entered with the front transfer not completed:
-     while err == 0 && !completed && deadline > now { err = libusb_handle_events_locked(ctx, remaining) }
-   One iteration = one event-handling call.  It fails (the loop ends with that error; TIMEOUT = -7 is
-   turned into "not completed"), or completes the front transfer, or completes nothing - then the call
-   has waited for the whole remaining time and the deadline has passed -, or completes other
-   transfers only and the loop goes round again.  Every further round needs a completion, so the
-   number of rounds is at most the number of transfers in flight + 1: the fuel S (length q) given by
-   `poll` is never used up (P_C12p.poll_wait_fuel). *)
+(* poll_completed, entered with the front transfer not completed; `rem` = deadline - now in microseconds:
+     while err == 0 && !completed && deadline > now {
+         if libusb_try_lock_events(ctx) == 0 {
+             if !completed && libusb_event_handling_ok(ctx) != 0 { err = libusb_handle_events_locked(ctx, remaining) }
+             libusb_unlock_events(ctx)
+         } else {
+             libusb_lock_event_waiters(ctx)
+             if !completed && libusb_event_handler_active(ctx) != 0 { libusb_wait_for_event(ctx, remaining) }
+             libusb_unlock_event_waiters(ctx)
+         } }
+   One iteration = one round = one entry of the lock plan.
+   LkOwn: one event-handling call.  It fails (the loop ends with that error; TIMEOUT = -7 is turned into "not
+   completed"), or completes the front transfer, or completes nothing - then the call has waited for the whole
+   remaining time (+ 1 us) and the deadline has passed -, or completes other transfers only and the loop goes
+   round again, no time gone.
+   LkActive n: the wait returns after n us with the events handled by the other thread (front completed: the loop
+   ends; otherwise next round with n us less to go), or - n not below the remaining time - it times out and the
+   deadline has passed.
+   LkGone: nothing is called after libusb_event_handler_active answered 0; next round at once.  The variant
+   (recheck = false) waits: the whole remaining time goes by, nothing is handled, the deadline has passed.
+   Every further round needs a completion or uses up a contended entry of the lock plan, so the number of rounds is
+   at most the number of transfers in flight + the contended entries of the plan + 1: the fuel given by `poll` is
+   never used up (P_C12p.poll_wait_fuel). *)
 Inductive wres := WDone | WTimeout | WErr (code : Z).
 
-Fixpoint poll_wait (fuel : nat) (s : pstate) (q : list slot) : pstate * list slot * wres :=
+Fixpoint poll_wait (recheck : bool) (fuel : nat) (s : pstate) (q : list slot) (rem : Z) : pstate * list slot * wres :=
   match fuel with
   | O => (s, q, WTimeout)
   | S f =>
-    let code := hd 0 (p_evs s) in
-    let s1 := ev_call s in
-    if code =? 0 then
-      let '(q', n) := events (p_epoch s) q in
-      let s2 := add_completed s1 n in
-      if front_done q' then (s2, q', WDone)
-      else if n =? 0 then (s2, q', WTimeout)
-      else poll_wait f s2 q'
-    else if code =? -7 then (s1, q, WTimeout)
-    else (s1, q, WErr code)
+    if rem <=? 0 then (s, q, WTimeout)           (* deadline > now does not hold *)
+    else
+    match lk_round (p_lk s) with
+    | LkOwn =>
+      let s0 := set_lk s (lk_own (p_lk s)) in
+      let code := hd 0 (p_evs s0) in
+      let s1 := ev_call s0 in
+      if code =? 0 then
+        let '(q', n) := events (p_epoch s) q in
+        let s2 := add_completed s1 n in
+        if front_done q' then (s2, q', WDone)
+        else if n =? 0 then (tick s2 (rem + 1), q', WTimeout)
+        else poll_wait recheck f s2 q' rem
+      else if code =? -7 then (s1, q, WTimeout)
+      else (s1, q, WErr code)
+    | LkActive n0 =>
+      let n := Z.max 0 n0 in
+      let s0 := set_lk s (lk_contended (p_lk s) recheck true true) in
+      if n <? rem then
+        let '(q', m) := events (p_epoch s) q in
+        let s2 := tick (add_completed s0 m) n in
+        if front_done q' then (s2, q', WDone) else poll_wait recheck f s2 q' (rem - n)
+      else (tick s0 (rem + 1), q, WTimeout)
+    | LkGone =>
+      if recheck then poll_wait recheck f (set_lk s (lk_contended (p_lk s) true false false)) q rem
+      else (tick (set_lk s (lk_contended (p_lk s) false false true)) (rem + 1), q, WTimeout)
+    end
   end.
+
+(* rounds of the lock plan in which another thread holds the events lock *)
+Definition is_contended (e : lockent) : bool := match e with LkOwn => false | _ => true end.
+Definition contended (l : list lockent) : nat := length (filter is_contended l).
+Definition is_active (e : lockent) : bool := match e with LkActive _ => true | _ => false end.
+Definition actives (l : list lockent) : nat := length (filter is_active l).
 
 (* PReap: the front transfer was popped and this is handle_completed's result ([2]: unreachable!()
    after the pop); PFail: Err(..) and nothing was popped; PPanic: a panic and nothing was popped
    (from_libusb_error's unreachable!() on a code libusb does not define; poll on an empty pool) *)
 Inductive pres := PReap (out : list Z) | PFail (out : list Z) | PPanic.
 
-Definition poll (ms : Z) (s : pstate) (q : list slot) : pstate * pres :=
+Definition poll (recheck : bool) (ms : Z) (s : pstate) (q : list slot) : pstate * pres :=
   match q with
   | [] => (s, PPanic)
   | sl :: r =>
@@ -233,7 +360,7 @@ Definition poll (ms : Z) (s : pstate) (q : list slot) : pstate * pres :=
     | None =>
       if ms <=? 0 then (s, PFail [1; 6])       (* the deadline has passed before the first round *)
       else
-        let '(s1, q', w) := poll_wait (S (length q)) s q in
+        let '(s1, q', w) := poll_wait recheck (S (length q + contended (lk_plan (p_lk s)))) s q (ms * 1000) in
         let s2 := set_pool s1 (Some q') in
         match w with
         | WDone =>
@@ -253,8 +380,9 @@ Definition is_panic (out : list Z) : bool := match out with [2] => true | _ => f
    cancel_all(); while !is_empty() { poll(1 s).ok(); }  and then `pending` (empty) is dropped.
    DRet: drop returned; DPanic: a poll panicked (unreachable!()), the unwinding frees what is left
    in `pending`; DHang: the fuel is used up.  The fuel `drop_fuel` = pending transfers + the
-   cancellation latencies still to run + failing event-handling calls still in the plan + 1 is
-   never used up (P_C12p.drain_ready): the loop ends within that many polls. *)
+   cancellation latencies still to run + failing event-handling calls still in the plan + rounds of
+   the lock plan in which this thread waits for another event handler (such a wait can time out) + 1
+   is never used up (P_C12p.drain_ready): the loop ends within that many polls. *)
 Inductive dres := DRet (s : pstate) | DPanic (s : pstate) | DHang.
 
 Fixpoint drain (fuel : nat) (s : pstate) (q : list slot) : dres :=
@@ -264,7 +392,7 @@ Fixpoint drain (fuel : nat) (s : pstate) (q : list slot) : dres :=
     match fuel with
     | O => DHang
     | S f =>
-      match poll 1000 s q with
+      match poll true 1000 s q with
       | (s', PReap out) =>
         match p_pool s' with
         | Some q' => if is_panic out then DPanic (free_pool s' q') else drain f s' q'
@@ -281,7 +409,8 @@ Fixpoint lat_sum (q : list slot) : nat := match q with [] => O | sl :: r => (lat
 Fixpoint failures (evs : list Z) : nat :=
   match evs with [] => O | c :: r => if c =? 0 then failures r else S (failures r) end.
 
-Definition drop_fuel (s : pstate) (q : list slot) : nat := S (length q + lat_sum q + failures (p_evs s)).
+Definition drop_fuel (s : pstate) (q : list slot) : nat :=
+  S (length q + lat_sum q + failures (p_evs s) + actives (lk_plan (p_lk s))).
 
 Definition pool_drop (s : pstate) (q : list slot) : dres :=
   let '(q', n) := cancel_all q in
@@ -294,7 +423,7 @@ Fixpoint drain_rounds (n : nat) (s : pstate) (q : list slot) : dres :=
   match n with
   | O => DRet (free_pool s q)
   | S k =>
-    match poll 1000 s q with
+    match poll true 1000 s q with
     | (s', PReap out) =>
       match p_pool s' with
       | Some q' => if is_panic out then DPanic (free_pool s' q') else drain_rounds k s' q'
@@ -311,8 +440,18 @@ Definition pool_drop_rounds (s : pstate) (q : list slot) : dres :=
   drain_rounds (length q') s0 q'.
 
 (* ---- one operation of the harness: new state, output; None: the operation never returns ------- *)
+
+(* an entry of the lock plan as the harness reads it: 1 = LkGone, 2 + n = LkActive n, anything else LkOwn *)
+Definition lk_of_tok (e : Z) : lockent := if e =? 1 then LkGone else if 2 <=? e then LkActive (e - 2) else LkOwn.
+
+(* what the harness prints after the result of a poll: pending(), then the libusb_try_lock_events and the
+   libusb_handle_events_locked calls made since the case began *)
+Definition poll_tail (s : pstate) : list Z :=
+  [zlen (match p_pool s with Some q' => q' | None => [] end); lk_rounds (p_lk s); p_evcalls s].
+
 Definition pool_op (push_first : bool) (s : pstate) (op arg : Z) : option (pstate * list Z) :=
   if op =? 9 then Some (push_ev s arg, [])
+  else if op =? 10 then Some (set_lk s (lk_push (p_lk s) (lk_of_tok arg)), [])
   else
   match p_pool s with
   | Some q =>
@@ -321,9 +460,9 @@ Definition pool_op (push_first : bool) (s : pstate) (op arg : Z) : option (pstat
       match q with
       | [] => Some (s, [-1])
       | _ =>
-        match poll arg (next_epoch s) q with
-        | (s', PReap out) => Some (s', if is_panic out then out else out ++ [zlen (match p_pool s' with Some q' => q' | None => [] end)])
-        | (s', PFail out) => Some (s', out ++ [zlen (match p_pool s' with Some q' => q' | None => [] end)])
+        match poll true arg (next_epoch s) q with
+        | (s', PReap out) => Some (s', if is_panic out then out else out ++ poll_tail s')
+        | (s', PFail out) => Some (s', out ++ poll_tail s')
         | (s', PPanic) => Some (s', [2])
         end
       end
@@ -332,7 +471,7 @@ Definition pool_op (push_first : bool) (s : pstate) (op arg : Z) : option (pstat
       let '(q', n) := cancel_all q in Some (add_notfound (set_pool s (Some q')) n, [])
     else if op =? 5 then
       match pool_drop s q with
-      | DRet s' => Some (s', [0; p_freed s'; p_evcalls s'])
+      | DRet s' => Some (s', [0; p_freed s'; p_evcalls s'; lk_rounds (p_lk s')])
       | DPanic s' => Some (s', [2])
       | DHang => None
       end
@@ -363,7 +502,7 @@ Fixpoint pool_run (push_first : bool) (s : pstate) (ops : list (Z * Z)) : option
 
 (* ---- the harness line ------------------------------------------------------------------------ *)
 
-(* v2 = false: `pool` lines (no cancellation latency, no event plan); v2 = true: `pool2` lines *)
+(* v2 = false: `pool` lines (no cancellation latency, no event plan); v2 = true: `pool2` / `pool3` lines *)
 Fixpoint parse_plan (v2 : bool) (n : nat) (t : list Z) : list plan * list Z :=
   match n with
   | O => ([], t)
@@ -390,22 +529,29 @@ Fixpoint parse_ops (n : nat) (t : list Z) : list (Z * Z) :=
 Definition parse_evs (v2 : bool) (t : list Z) : list Z * list Z :=
   if v2 then match t with n :: r => (take n r, drop n r) | [] => ([], []) end else ([], t).
 
-(* what rust/h_async prints for the case `toks`; [3]: the case never ends *)
-Definition run_pool_with (push_first v2 : bool) (toks : list Z) : list Z :=
+(* v3 = true: `pool3` lines: the lock plan follows the event plan *)
+Definition parse_lks (v3 : bool) (t : list Z) : list lockent * list Z :=
+  if v3 then match t with n :: r => (map lk_of_tok (take n r), drop n r) | [] => ([], []) end else ([], t).
+
+(* what rust/h_async prints for the case `toks`; [3]: the case never ends.
+   ver: 1 = `pool`, 2 = `pool2`, 3 = `pool3` lines *)
+Definition run_pool_with (push_first : bool) (ver : Z) (toks : list Z) : list Z :=
   match toks with
   | np :: t =>
-    let '(pl, t1) := parse_plan v2 (Z.to_nat np) t in
-    let '(evs, t1') := parse_evs v2 t1 in
-    match t1' with
+    let '(pl, t1) := parse_plan (2 <=? ver) (Z.to_nat np) t in
+    let '(evs, t1') := parse_evs (2 <=? ver) t1 in
+    let '(lks, t1'') := parse_lks (3 <=? ver) t1' in
+    match t1'' with
     | nops :: t2 =>
-      match pool_run push_first (pinit pl evs) (parse_ops (Z.to_nat nops) t2) with
+      match pool_run push_first (pinit pl evs lks) (parse_ops (Z.to_nat nops) t2) with
       | None => [3]
       | Some (s, out, true) => out ++ [-9; -1]      (* an unreachable!() was hit: not exercised *)
       | Some (s, out, false) =>
         (* the pool is dropped at the end of the case *)
         match (match p_pool s with Some q => pool_drop s q | None => DRet s end) with
         | DRet s' =>
-          out ++ [-9; p_calls s'; p_accepted s'; p_refused s'; p_completed s'; p_notfound s'; 0; p_freed s'; p_evcalls s']
+          out ++ [-9; p_calls s'; p_accepted s'; p_refused s'; p_completed s'; p_notfound s'; 0; p_freed s'; p_evcalls s';
+                  lk_rounds (p_lk s'); lk_fail (p_lk s'); lk_waits (p_lk s'); lk_idle (p_lk s'); lk_clock (p_lk s')]
         | _ => [3]
         end
       end
@@ -414,5 +560,6 @@ Definition run_pool_with (push_first v2 : bool) (toks : list Z) : list Z :=
   | [] => [-99]
   end.
 
-Definition run_pool (toks : list Z) : list Z := run_pool_with false false toks.
-Definition run_pool2 (toks : list Z) : list Z := run_pool_with false true toks.
+Definition run_pool (toks : list Z) : list Z := run_pool_with false 1 toks.
+Definition run_pool2 (toks : list Z) : list Z := run_pool_with false 2 toks.
+Definition run_pool3 (toks : list Z) : list Z := run_pool_with false 3 toks.
